@@ -2611,7 +2611,49 @@ class Evaluator:
                         continue
                     return r
             return None
+        m = self._as_map_loop(s, st)
+        if m is not None:
+            return None
         return self.generic_loop(s, st, it)
+
+    def _as_map_loop(self, s, st):
+        """`acc = []; for v in it: acc.append(E)` (optionally `if C: acc.append(E)`) over a sequence of unknown length is the
+        list comprehension `[E for v in it if C]`: evaluated as that comprehension, so that loop and comprehension spellings
+        of one computation get one value.  Only when the accumulator is a local that holds a fresh empty list, the body is
+        exactly that one statement, and E / C do not mention the accumulator."""
+        if s.orelse or len(s.body) != 1:
+            return None
+        b = s.body[0]
+        conds = []
+        if isinstance(b, ast.If) and not b.orelse and len(b.body) == 1:
+            conds = [b.test]
+            b = b.body[0]
+        if not (isinstance(b, ast.Expr) and isinstance(b.value, ast.Call) and isinstance(b.value.func, ast.Attribute) and b.value.func.attr == "append"
+                and isinstance(b.value.func.value, ast.Name) and len(b.value.args) == 1 and not b.value.keywords):
+            return None
+        acc = b.value.func.value.id
+        cur = st.env.vars.get(acc)
+        if not (isinstance(cur, Seq) and cur.kind == "list" and not cur.items):
+            return None
+        elt = b.value.args[0]
+        for e in [elt] + conds:
+            for n in ast.walk(e):
+                if isinstance(n, ast.Name) and n.id == acc:
+                    return None
+                if isinstance(n, (ast.Yield, ast.YieldFrom, ast.Await, ast.NamedExpr)):
+                    return None
+        tnames = {n.id for n in ast.walk(s.target) if isinstance(n, ast.Name)}
+        if acc in tnames:
+            return None
+        comp = ast.ListComp(elt=elt, generators=[ast.comprehension(target=s.target, iter=s.iter, ifs=list(conds), is_async=0)])
+        ast.copy_location(comp, s)
+        ast.fix_missing_locations(comp)
+        comp._parent = getattr(s, "_parent", None)
+        v = self._comp(comp, st, "list")
+        if not isinstance(v, (MapV, Seq)):
+            return None
+        st.env.assign(acc, v)
+        return v
 
     def _break_cond(self, v):
         """Condition under which the value of a loop body's exit is BREAK."""
